@@ -83,6 +83,9 @@ def gate_table(rng):
     add(("qcow2.extl2-small-subcluster", [9, 10, 11, 12, 13]))
     add(("qcow2.crypt_method", [1, 2, 3, 255, 1 << 16, (1 << 32) - 1]))
     add(("qcow2.zstd-without-module", [1]))
+    # incompatible feature bits the reader does not know (0..4 are defined) and compression types other than zlib/zstd
+    add(("qcow2.unknown-incompatible-feature", list(range(5, 64))))
+    add(("qcow2.unknown-compression-type", [2, 3, 4, 0x7F, 0x80, 0xFF]))
     add(("qcow2.data-file-missing", ["named", "unnamed"]))
     add(("qcow2.backing-file-missing", [0]))
     add(("vhdx.fileid", [("bit", b) for b in range(64)]))
@@ -93,6 +96,10 @@ def gate_table(rng):
     add(("vhdx.missing-region", ["bat", "metadata"]))
     add(("vhdx.missing-item", [0, 1, 2, 3, 4]))
     add(("vhdx.foreign-locator-type", [0, 1, 2, 3]))
+    # entries of unknown type that are marked required (region table: Required; metadata table: IsRequired, with and
+    # without the IsUser / IsVirtualDisk bits): the format demands a refusal; the same entries not marked required are the control
+    add(("vhdx.unknown-required-region", [0, 1, 2, 3]))
+    add(("vhdx.unknown-required-item", [4, 5, 6, 7]))
     add(("vdi.signature", [("bit", b) for b in range(32)]))
     add(("hds.signature-v1", [("bit", b) for b in range(128)]))
     add(("hds.signature-v2", [("bit", b) for b in range(128)]))
@@ -217,6 +224,18 @@ def _apply(gate: str, value, control: bool, ctx, rng):
             if not control:
                 struct.pack_into(">Q", raw, 72, struct.unpack_from(">Q", raw, 72)[0] | (1 << 3))
                 raw[104] = 1
+        elif what == "unknown-incompatible-feature":
+            if not control:
+                struct.pack_into(">Q", raw, 72, struct.unpack_from(">Q", raw, 72)[0] | (1 << value))
+        elif what == "unknown-compression-type":
+            view = wq.make_view(rng, size=6 * 4096, cluster_bits=12, kinds="NCNCNN", extl2=False, tag=1)
+            img, _, _ = wq.build(rng, cluster_bits=12, size=6 * 4096, views=[view], placement="seq", header_length=112, rand_info=False)
+            raw = bytearray(img.to_bytes())
+            assert struct.unpack_from(">I", raw, 100)[0] >= 105
+            if not control:
+                struct.pack_into(">Q", raw, 72, struct.unpack_from(">Q", raw, 72)[0] | (1 << 3))
+                raw[104] = value
+            backing = None
         elif what == "data-file-missing":
             view = wq.make_view(rng, size=4 * 512, cluster_bits=9, kinds="NNNN", extl2=False, tag=1)
             img, dataf, _ = wq.build(rng, cluster_bits=9, size=4 * 512, views=[view], external_data=True,
@@ -245,6 +264,15 @@ def _apply(gate: str, value, control: bool, ctx, rng):
             struct.pack_into("<Q", raw, 0x20000 + 8, s2)
             if not control:
                 _flip(raw, 0x10000 if value[0] == 1 else 0x20000, value[1])
+        elif what in ("unknown-required-region", "unknown-required-item"):
+            g = bytes(rng.randrange(256) for _ in range(16))
+            if what == "unknown-required-region":
+                kw = {"extra_regions": [(g, 0 if control else 1)] + [(bytes(rng.randrange(256) for _ in range(16)), 0) for _ in range(0 if control else value)]}
+            else:
+                kw = {"extra_items": [(g, b"opaque payload", 3 if control else value)]}
+            sf, _, _ = wvhdx.build(rng, block_size=MBb, sector_size=512, nblocks=2, states=[6, 0], tag=1, checksums=False, **kw)
+            fh = as_handle(sf)
+            return call(lambda: VHDX(fh).read(512))
         elif what == "regi" and not control:
             _flip(raw, 0x30000, value[1])
             _flip(raw, 0x40000, value[1])
